@@ -555,8 +555,14 @@ def mkaccval(vr):
 
 
 # ------------------------------------------------------------------ cases
+UNCOPYABLE_ACCS = ["Histogram", "Sum", "Mean", "Count", "StoreFilled", "Vectorize"]
+
+
 def cases(tier, seed):
     na, nb = NCASES[tier]
+    for acc in UNCOPYABLE_ACCS:
+        for nfill in (1, 2):
+            yield {"k": "uncopyable", "acc": acc, "n": nfill}
     for c in corner_cases():
         yield c
     for i in range(max(na, nb)):
@@ -1062,10 +1068,78 @@ def run_acc(r, obs):
             earlier.append((c, snap(c)))
 
 
+class _NoCopy(object):
+    """An object a reading element may leave in a context (a lock, an open file): it refuses
+    to be deep-copied."""
+
+    def __deepcopy__(self, memo):
+        raise TypeError("cannot copy a %s object" % type(self).__name__)
+
+    __reduce_ex__ = None
+
+
+def run_uncopyable(r, obs):
+    """The context of a filled value holds an object that cannot be deep-copied beside ordinary
+    nested items: compute() may refuse, but what it yields shares no dictionary or list with
+    the filled value."""
+    import lena.flow
+    import lena.math
+    import lena.structures
+    from rv.monitors import identity
+    name = r["acc"]
+    if name == "Histogram":
+        el = lena.structures.Histogram([0, 1, 2, 3])
+    elif name == "Sum":
+        el = lena.math.Sum()
+    elif name == "Mean":
+        el = lena.math.Mean()
+    elif name == "Count":
+        el = lena.flow.Count()
+    elif name == "StoreFilled":
+        el = lena.flow.StoreFilled() if hasattr(lena.flow, "StoreFilled") else None
+    elif name == "Vectorize":
+        el = lena.math.Vectorize(lena.math.Sum(), dim=2) if hasattr(lena.math, "Vectorize") \
+            else None
+    else:
+        el = None
+    if el is None or not hasattr(el, "fill"):
+        return
+    obs.nontrivial = True
+    filled = []
+    for i in range(r["n"]):
+        ctx = {"io": _NoCopy(), "n": {"k": [1, i]}, "tags": ["t"]}
+        data = (1.5, 0.5) if name == "Vectorize" else 1.5
+        filled.append((data, ctx))
+        try:
+            el.fill((data, ctx))
+        except TypeError:
+            obs.count("uncopyable_context_refused")
+            return
+    try:
+        results = list(el.compute())
+    except TypeError:
+        obs.count("uncopyable_context_refused")
+        return
+    obs.count("uncopyable_context_results", len(results))
+    for res in results:
+        rctx = res[1] if isinstance(res, tuple) and len(res) == 2 and isinstance(res[1], dict) \
+            else None
+        if rctx is None:
+            continue
+        for data, ctx in filled:
+            common = [o for o in identity.shared(rctx, ctx) if not isinstance(o, _NoCopy)]
+            obs.check(not common, "result-shares-object-with-filled-value:uncopyable-context",
+                      "%s filled with a value whose context holds an object that cannot be "
+                      "deep-copied: compute() yielded a context sharing %r with the filled "
+                      "value" % (name, common[:1]))
+
+
 def run_case(r, obs):
     k = r["k"]
     try:
-        if k == "acc":
+        if k == "uncopyable":
+            run_uncopyable(r, obs)
+        elif k == "acc":
             run_acc(r, obs)
         else:
             run_split(r, obs)
@@ -1092,3 +1166,6 @@ RULE += (' Data are also instances of subclasses of float / str that carry a mut
          '(changed in place by the data mutators).')
 RULE += (' Branches also hold SetContext and UpdateContextFromStatic elements, and the Split then '
          'receives a static context from outside: what a branch sets is seen by that branch only.')
+RULE += (' Added: accumulators filled with values whose context holds an object that refuses '
+         'deep copy beside nested items: compute() may fail, its results share nothing with the '
+         'filled value.')
